@@ -1,3 +1,3 @@
 From Coq Require Import Extraction ExtrOcamlBasic.
-From SLU Require Import SchedModel.
-Extraction "sched_model.ml" relax_snode parallel_init sched sched_guard gstep ginit kids_done lead dadpanel cols.
+From SLU Require Import SchedModel SchedInv.
+Extraction "sched_model.ml" relax_snode parallel_init sched sched_guard gstep ginit kids_done lead dadpanel cols check_init.
